@@ -421,6 +421,22 @@ def check(pid, tier, verif_seed, runs=None, workers=None, wall_cap=None, quiet=F
             e['minimised'] = len(seq) < len(e['sequence'])
         path = write_replay(pid, r['seed'], tier, case, e['violation'], sequence=seq)
         ok, outp = fresh_replay(path)
+        if not ok and seq is None:
+            # confirmed twice inside its worker, not in a fresh interpreter: the violation may need the state that
+            # earlier runs of the same process left behind in the library. Re-create the block's history (generated
+            # in a process of its own) and look for the violation at the end of it, in pristine processes.
+            start = (r['index'] // block) * block
+            gen = in_pristine_child(generate_block, (pid, tier, verif_seed, start, r['index'] + 1, known))
+            if gen and gen.get('ok'):
+                cases = [c for _, c in gen['cases']]
+                for cand in (case, cases[-1]):
+                    seq = minimise_sequence(pid, cases[:-1], cand, e['violation'])
+                    if seq is not None:
+                        e['violation']['details']['needs_earlier_runs_in_same_process'] = len(seq)
+                        path = write_replay(pid, r['seed'], tier, cand, e['violation'], sequence=seq)
+                        ok, outp = fresh_replay(path)
+                        if ok:
+                            break
         if not ok:
             print('HARNESS-ERROR property=%s replay of %s did not reproduce in a fresh interpreter' % (pid, path))
             print(outp[-2000:])
